@@ -1,3 +1,4 @@
+\* Not run by any check: the multi-threaded scheduler view (see MC_Factory_free_keyp.cfg); all invariants hold.
 SPECIFICATION MCSpec
 CONSTANTS
   MaxW = 3
